@@ -401,11 +401,15 @@ func driveC19(c *driverCtx) error {
 				s = s2
 			}
 		}
+		sn, _ := schemaNodeFromJSON([]byte(sj))
 		codec, err := s.Codec(&T{})
 		if err != nil {
-			return err
+			// no decoder for a schema the library itself serialised: reported as a stored value that could not be read
+			c.rec.NewCase()
+			c.rec.Emit(fmt.Sprintf("C19|read|%s|no-codec", shortSchema(sch)), map[string]any{
+				"op": "cs_read", "schema": sn, "bytes": []int{0}, "rvalue": projectValue(reflect.ValueOf(T{})), "rout": "codec: " + err.Error(), "left": 1})
+			continue
 		}
-		sn, _ := schemaNodeFromJSON([]byte(sj))
 		// read direction: stored integers
 		var stored []int64
 		if sch == sDate {
